@@ -1,6 +1,11 @@
 import Driver.Codec
 import Driver.Ops.Filter
-/-! op `run`: settings + journal AST (+ wanted outputs) ⇒ load status and outputs.
+import Driver.Ops.Parse
+/-! op `run`: settings + journal (+ wanted outputs) ⇒ load status and outputs.
+    The journal is given as an AST (`txns`: the semantic layers only), as text (`text`: parsed by
+    `Model/Syntax`, then loaded) or as a list of files (`files`: `paths_to_txns`).  With `astcheck` and both
+    `text` and `txns` present the answer also says whether `Syntax.parseJournal text` equals the AST.
+    An optional `mfilter` (model-side filter definition) selects the transactions the outputs are computed from.
     Outputs are looked up in a table passed by `Main` (one entry per output kind). -/
 open Lean Tackler Codec
 
@@ -20,21 +25,53 @@ def runOutput (table : List (String × OutputFn)) (j : Json) (st : Settings) (ts
     | .error e => Json.mkObj [("r", "BADCASE"), ("msg", Json.str e)])
   | none => Json.mkObj [("r", "NOMODEL")]
 
+/-- the load of the case: AST, text or files -/
+def loadCase (j : Json) (st : Settings) : R (Outcome (List Txn × Settings) × List (String × Json)) := do
+  match optField j "txns" with
+  | some txns =>
+    let rs ← rawTxns txns
+    let extra ← match optField j "astcheck", optField j "text" with
+      | some (.bool true), some t => do
+        let cfg ← tsCfg j
+        let text ← str t
+        pure [("ast", Json.str (match Syntax.parseJournal cfg text.toList with
+          | none => "nosyntax"
+          | some ps => if ps = rs then "same" else "diff"))]
+      | _, _ => pure []
+    pure (loadJournal st rs, extra)
+  | none =>
+    let cfg ← tsCfg j
+    match optField j "files" with
+    | some fs =>
+      let texts ← (← arr fs).mapM (fun f => do pure (← str (← field f "text")).toList)
+      pure (loadFiles cfg st texts, [])
+    | none =>
+      let text ← str (← field j "text")
+      pure (loadText cfg st text.toList, [])
+
 def opRun (table : List (String × OutputFn)) (j : Json) : R Json := do
   let st ← settings (← field j "cfg")
-  let rs ← rawTxns (← field j "txns")
+  let (res, extra) ← loadCase j st
   let want ← match optField j "want" with
     | some w => strList w
     | none => pure []
-  match loadJournal st rs with
-  | .err => pure (Json.mkObj [("r", "ERR")])
-  | .undef => pure (Json.mkObj [("r", "UNDEF")])
+  let status (r : String) : List (String × Json) := [("r", Json.str r)]
+  match res with
+  | .err => pure (Json.mkObj (status "ERR" ++ extra))
+  | .undef => pure (Json.mkObj (status "UNDEF" ++ extra))
   | .ok (ts0, st') =>
     -- optional transaction filter (`TxnData::filter`): outputs are computed from the selected set
-    let ts ← match optField j "mfilter" with
-      | some f => do pure (filterTxns simpleMatch (← filterOfJson f) ts0)
-      | none => pure ts0
-    pure (Json.mkObj [("r", "OK"), ("n", .num (JsonNumber.fromNat ts0.length)), ("selected", .num (JsonNumber.fromNat ts.length)),
-      ("out", Json.mkObj (want.map (fun w => (w, runOutput table j st' ts w))))])
+    match optField j "mfilter" with
+    | some fj =>
+      let f ← filterOfJson fj
+      if !filterInSubset f then pure (Json.mkObj (status "UNDEF" ++ extra))
+      else
+        let ts := filterTxns regexMatch f ts0
+        pure (Json.mkObj (status "OK" ++ [("n", Json.num (JsonNumber.fromNat ts0.length)),
+          ("selected", Json.num (JsonNumber.fromNat ts.length)),
+          ("out", Json.mkObj (want.map (fun w => (w, runOutput table j st' ts w))))] ++ extra))
+    | none =>
+      pure (Json.mkObj (status "OK" ++ [("n", Json.num (JsonNumber.fromNat ts0.length)),
+        ("out", Json.mkObj (want.map (fun w => (w, runOutput table j st' ts0 w))))] ++ extra))
 
 end Ops
